@@ -626,7 +626,11 @@ impl Prop for C02 {
                     faults: false,
                     data: true,
                 };
-                let (l, i) = wild::program(ch, &o);
+                let (mut l, i) = wild::program(ch, &o);
+                if ch.chance(1, 8) {
+                    let mixed = ch.chance(1, 2);
+                    wild::add_handler(&mut l, ch, "on_interrupt", mixed);
+                }
                 (l, "wild-chaotic", i.calls, false)
             }
         };
